@@ -12,7 +12,14 @@ From BB Require Import BN Brute SpaceFacts TrapFacts PercolateFacts AttractorFac
   Strict PetriNet Control Meta FilterFacts PetriNetFacts TrappistFacts DiagramStruct DiagramSem1 DiagramCache
   DiagramDepth DiagramComplete Termination ControlFacts MetaFacts Candidates StrictFacts MinExpandFacts CandidatesFacts SymbolicTest SymbolicTestFacts Signed ReductionFacts ControlFacts2 Main Blocks BlocksFacts ObsFacts OwnerFacts CandidatesTerm
   PartialOwner BlockMath BlockComplete ASeeds ASeedsFacts LogChecks SkipRule SkipRuleFacts Names NamesFacts Perm PermFacts SCC SCCFacts SCCStruct ControlFacts3 SCCTerm FilterSym Main2 StrategyFacts ControlFacts4 SkipRuleFacts2 SCCComplete SCCAttr BlockComplete2 ControlFacts5 Iso SkipSem ControlFacts6.
-From BB Require Import PyLib PySrcBase PySrcKey PySrcKeyFacts PyLibCore PySrcCore PySrcCoreFacts PyLibCore2 PySrcCore2 PySrcCore2Facts PySrcInitFacts.
+From BB Require Import PyLib PySrcBase PySrcKey PySrcKeyFacts PyLibCore PySrcCore PySrcCoreFacts PyLibCore2 PySrcCore2 PySrcCore2Facts PySrcInitFacts PyLibSd PyLibPerc PySrcIso PySrcIsoFacts.
+
+(* translator tie: SuccessionDiagram.is_subgraph / is_isomorphic as generated from the source compute the model's is_subgraph_b / is_isomorphic_b (whose specs are is_subgraph_b_spec / is_isomorphic_b_spec) *)
+Theorem C20_source_is_subgraph : forall a b : sd, py_is_subgraph a b = Some (is_subgraph_b a b).
+Proof. exact py_is_subgraph_spec. Qed.
+
+Theorem C20_source_is_isomorphic : forall a b : sd, py_is_isomorphic a b = Some (is_isomorphic_b a b).
+Proof. exact py_is_isomorphic_spec. Qed.
 
 Theorem C20_source_init : forall (fuel : nat) (N : net) (cfg : config) (pnc : nat -> bool), 0 < fuel -> exists w : pyst, py_init fuel N cfg pnc = CNext w Datatypes.tt /\ p_sd w = init N /\ CoreInv N w.
 Proof. exact py_init_spec. Qed.
@@ -89,6 +96,8 @@ Proof. exact is_isomorphic_b_spec. Qed.
 Theorem C20_is_isomorphic_symmetric : forall a b : sd, is_isomorphic_b a b = is_isomorphic_b b a.
 Proof. exact is_isomorphic_b_sym. Qed.
 
+Print Assumptions C20_source_is_subgraph.
+Print Assumptions C20_source_is_isomorphic.
 Print Assumptions C20_source_init.
 Print Assumptions C20_source_depth.
 Print Assumptions C20_source_ensure_node.
